@@ -9,6 +9,15 @@ import json, sys
 import probe_rules as pr
 
 
+def reset_serial():
+    "Hook: restart the node-hash counter so that a tableau's tie-break order does not depend on earlier jobs in this process."
+    try:
+        from pytableaux.proof import common
+        common._verif_serial[0] = 0
+    except Exception:
+        pass
+
+
 def main():
     registry = pr.setup()
     from pytableaux import examples
@@ -70,6 +79,7 @@ def main():
         try:
             o = dict(opts or {})
             o.setdefault('build_timeout', timeout_ms)
+            reset_serial()
             tab = Tableau(logic, Argument(concl, prems), **o)
             if mode == 'step':
                 n = 0
